@@ -150,6 +150,29 @@ Proof.
   - destruct (IH H) as (va & vb & Ha & Hb & Hx). exists va, vb. split; [now right|]. auto.
 Qed.
 
+(* the converse - maximality on maps: a key present in both inputs is dropped only when the intersection of its two
+   values is empty (null); otherwise it is kept with exactly that intersection (null on both sides stays a null entry) *)
+Theorem intersect_map_complete am bm k va vb : In (k, va) am -> lookup k bm = Some vb ->
+  (is_null va && is_null vb = true -> In (k, VNull) (map_of_value (intersect (VMap am) (VMap bm)))) /\
+  (is_null va && is_null vb = false -> intersect va vb <> VNull ->
+     In (k, intersect va vb) (map_of_value (intersect (VMap am) (VMap bm)))).
+Proof.
+  cbn [intersect is_null map_of_value].
+  induction am as [|[k0 v0] r IH]; intros Hin Hb; [contradiction|].
+  destruct Hin as [E|Hin].
+  - inversion E; subst k0 v0. rewrite Hb. split; intro N.
+    + rewrite N. now left.
+    + intro NZ. rewrite N. destruct (intersect va vb) eqn:I; try (now left). congruence.
+  - destruct (IH Hin Hb) as [I1 I2].
+    assert (W : forall e rest, (In e rest) -> In e (match lookup k0 bm with
+              | None => rest
+              | Some v2 => if is_null v0 && is_null v2 then (k0, VNull) :: rest
+                           else match intersect v0 v2 with VNull => rest | x => (k0, x) :: rest end end)).
+    { intros e rest He. destruct (lookup k0 bm) as [v2|]; [|exact He].
+      destruct (is_null v0 && is_null v2); [now right|]. destruct (intersect v0 v2); try (now right); exact He. }
+    split; intros; apply W; auto.
+Qed.
+
 (* ---- bkld ---- *)
 Lemma nodollar_not_delete v : dfree v -> is_str v "$delete" = false.
 Proof.
